@@ -33,6 +33,12 @@ F('regex__dfa_match', r'constexpr\s+auto\s+dfa_match\(\s*const dfa<N>& sm,\s*mat
          S(r'\bstate\.', 'state->'), Call(r'sp\.update', 'source_point__update(&sp, {args})', name='R4:sp.update'),
          Bound(r'state->conflicted_recognition', ['4']), Bound(r'state->transitions', ['256'])])
 
+EMIT2 = Emit(r's', [(r'buf\.get_view\((.*)\)', '(unsigned long)(VX_OFF(buf_end) - VX_OFF(end))'), (r'(.+)', '(unsigned long)({0})')], min=0)
+F('expr__match', r'constexpr\s+bool\s+match\(match_options opts,\s*const Buffer& buf,\s*Stream& s\)\s*const', 'bool expr__match(struct match_options opts, const char* buf_begin, const char* buf_end)',
+  scope=[r'class\s+expr\b'],
+  rules=[EMIT2, S(r'auto res = dfa_match\(sm, opts, source_point\{\}, buf\.begin\(\), buf\.end\(\), s\);', 'struct recognized_term res = regex__dfa_match(&expr_sm, opts, source_point__default(), buf_begin, buf_end);', name='R3:expr::sm'),
+         S(r'auto end = buf\.begin\(\) \+ res\.len;', 'const char* end = buf_begin + res.len;', name='R7'), S(r'buf\.end\(\)', 'buf_end', min=1, name='R7:end')])
+
 SA = [r'class\s+dfa_size_analyzer\b']
 SAM = S(r'(?<![\w.>])size\b(?!\s*\()', 'self->size', min=0, name='R4:member size')
 SL = S(r'\bslice\{', '(struct utils__slice){', min=0, name='R16:slice')
@@ -50,6 +56,7 @@ struct match_options { bool verbose; };
 struct recognized_term { size16_t term_idx; size_t len; };
 struct utils__slice { size32_t start; size32_t n; };
 struct dfa_size_analyzer { size32_t size; };
+static inline struct source_point source_point__default(void) { struct source_point p = { 1, 1 }; return p; }
 static inline struct recognized_term recognized_term__default(void) { struct recognized_term r = { uninitialized16, uninitialized16 }; return r; }
 static inline unsigned long vx_sp(struct source_point sp) { return ((unsigned long)sp.line << 32) | sp.column; }
 static inline size_t vx_idx(size_t i, size_t n) { __CPROVER_assert(i < n, "VX_BOUND subscript within the declared (logical) dimension"); return i; }
@@ -60,13 +67,15 @@ struct dfa { size_t current_size; size_t N; struct dfa_state the_data[PH_DFA]; }
 unsigned vx_ev_n; int vx_ev_kind; unsigned long vx_ev_a0, vx_ev_a1, vx_ev_a2;
 void vx_emit(int kind, unsigned long a0, unsigned long a1, unsigned long a2) { if (vx_ev_n < 1000) vx_ev_n++; vx_ev_kind = kind; vx_ev_a0 = a0; vx_ev_a1 = a1; vx_ev_a2 = a2; }
 const char* g_buf; size_t g_len; size_t g_k;
+struct dfa expr_sm;     /* R3: regex::expr<Pattern>::sm of the one instance under consideration */
+size16_t g_ret_term; size_t g_ret_len;   /* ghost: the result dfa_match returned */
 #define VX_OFF(p) ((size_t)__CPROVER_POINTER_OFFSET(p))
 #define VX_MAXBUF 4096
 static inline const char* vx_rd(const char* p) { __CPROVER_assert(__CPROVER_same_object(p, g_buf) && VX_OFF(p) < g_len, "VX_BUFFER read inside the caller's buffer"); return p; }
 ''' + open(os.path.join(HERE, '..', 'contracts', 'dfa.pre.h')).read()
 
 UNIT = Unit('dfa', PRELUDE, fns, consts=PC.UNINIT)
-UNIT.facts = [r'using conflicted_terms = size16_t\[4\];', r'static const size_t transitions_size = meta::distinct_values_count<char>;',
+UNIT.facts = [r'struct source_point\s*\{\s*size32_t line = 1;\s*size32_t column = 1;', r'using conflicted_terms = size16_t\[4\];', r'static const size_t transitions_size = meta::distinct_values_count<char>;',
               r'size8_t start_state = 0;\s*size8_t end_state = 0;\s*size8_t unreachable = 0;\s*conflicted_terms conflicted_recognition = \{ uninitialized16, uninitialized16, uninitialized16, uninitialized16 \};\s*size16_t transitions\[transitions_size\] = \{\};\s*stdex::cbitset<N> merged_from = \{\};',
               r'constexpr const T& operator\[\]\(size_type idx\) const \{ return the_data\[idx\]; \}',
               r'using dfa = stdex::cvector<dfa_state<N>, N>;', PC.FACTS[-1], PC.FACTS[5]]
